@@ -47,8 +47,41 @@ def nttOp (kind : String) (T : NTT.Tables) (a : List Nat) : Option (List Nat) :=
     is printed as the empty table (the harness drops the error: `idx, _ := …`; `Vec(nil)` is `-`). -/
 def autIndex (n nthRoot gal : Nat) : List Nat := (AutomorphismNTTIndex n nthRoot gal).getD []
 
+/-! ### Ring construction: which parameters `ring.NewRing*` / `Ring.UnmarshalJSON` accept
+(`ring/ring.go: NewRingWithCustomNTT`, `ring/subring.go: NewSubRingWithCustomNTT, generateNTTConstants`).
+Theorems: `Lattigo/Props/C01CI.lean`. -/
+
+/-- no divisor `m` of `q` with `d ≤ m`, `m·m ≤ q` (trial division, `fuel` candidates) -/
+def noDivFrom (q : Nat) : Nat → Nat → Bool
+  | 0, _ => true
+  | fuel + 1, d =>
+    if d * d > q then true else if q % d = 0 then false else noDivFrom q fuel (d + 1)
+
+/-- `ring.IsPrime` as a decidable predicate (trial division; `primeTD_iff`: it is `Nat.Prime`) -/
+def primeTD (q : Nat) : Bool := decide (2 ≤ q) && noDivFrom q q 2
+
+/-- the degree test `N < 8 || N&(N-1) != 0` of the constructors, negated -/
+def acceptDegree (n : Nat) : Bool := !(decide (n < 8) || (n &&& (n - 1)) != 0)
+
+/-- `generateNTTConstants`: `IsPrime(Modulus)` and `Modulus & (NthRoot-1) == 1` -/
+def acceptModulus (nthRoot q : Nat) : Bool := primeTD q && (q &&& (nthRoot - 1)) == 1
+
+/-- `utils.AllDistinct` -/
+def allDistinct : List Nat → Bool
+  | [] => true
+  | x :: xs => !xs.contains x && allDistinct xs
+
+/-- a ring of degree `n` over the chain `qs` with roots of unity of order `nthRoot` is constructed
+    (no error) exactly when this holds -/
+def accept (n nthRoot : Nat) (qs : List Nat) : Bool :=
+  acceptDegree n && !qs.isEmpty && allDistinct qs && qs.all (acceptModulus nthRoot)
+
 def handle (toks : List String) : String :=
   match toks with
+  | ["accept", _ctor, n, nth, qs] =>
+    match n.toNat?, nth.toNat?, parseVec? qs with
+    | some n, some nth, some qs => if accept n nth qs then "1" else "0"
+    | _, _, _ => badOp
   | "w" :: fn :: args =>
     match nats? args with
     | some a => (word fn a).getD badOp
